@@ -466,10 +466,55 @@ def far_reuse(ctx):
             for p in ps:
                 c.ops += [f"setpos {p}", ks_op(rng, k)]
             cases.append(c)
-    if not cases:
+    # every entry point of a core that hands out keystream, mixed: consecutive positions must get pairwise distinct blocks
+    mixed = []
+    for mode in list(CTR_FLAVORS) + ["belt"]:
+        for _ in range(ctx.n(10, 120)):
+            bs, w = pick_matrix(rng, mode, lambda x: x[0] >= 8)
+            if bs < 4:
+                continue
+            key = rb(rng, 16)
+            iv, cls = stream_iv(rng, mode, bs, key)
+            c = Case("core", mode, bs, w, key, iv, cls_iv=cls, cls_far="mixed", steps=[])
+            pos = 0
+            for _ in range(rng.randrange(2, 7)):
+                r = rng.random()
+                if r < 0.2:
+                    c.ops.append("ksblock"); c.meta["steps"].append((pos, 1, None)); pos += 1
+                elif r < 0.4:
+                    x = rb(rng, bs)
+                    c.ops.append(f"applyblock {hx(x)}" if rng.random() < 0.6 else f"applyblockb {hx(x)} {hx(rb_nz(rng, bs))}")
+                    c.meta["steps"].append((pos, 1, x)); pos += 1
+                elif r < 0.6:
+                    k = nblocks_choice(rng, w, 2 * w + 1)
+                    c.ops.append(ks_op(rng, k)); c.meta["steps"].append((pos, k, None)); pos += k
+                else:
+                    k = nblocks_choice(rng, w, 2 * w + 1)
+                    x = rb(rng, k * bs)
+                    c.ops.append(f"applyblocks {hx(x)}"); c.meta["steps"].append((pos, k, x)); pos += k
+            mixed.append(c)
+    if not cases and not mixed:
         return
-    res = ctx.run(cases, layers=())
-    ctx.no_panic(cases, res)
+    res = ctx.run(cases + mixed, layers=())
+    ctx.no_panic(cases + mixed, res)
+    for c in mixed:
+        hh = res["H"][c.cid]
+        if hh is None:
+            continue
+        seen, bad = {}, None
+        for (pos, k, x), l in zip(c.meta["steps"], hh):
+            if not l.startswith("out "):
+                continue
+            o = payload(l)
+            ks = o if x is None else xor(o, x)
+            for b in range(min(k, len(ks) // c.bs)):
+                blk = ks[b * c.bs:(b + 1) * c.bs]
+                for p2, k2 in seen.items():
+                    if p2 != pos + b and k2 == blk:
+                        bad = (p2, pos + b)
+                seen[pos + b] = blk
+        if bad:
+            ctx.violation("predicate", f"{c.mode} bs={c.bs} w={c.w}: the keystream block of block position {bad[0]} is used again at block position {bad[1]}", [c], {"H": hh})
     for c in cases:
         hh = res["H"][c.cid]
         if hh is None:
